@@ -151,6 +151,8 @@ func (ctx *Ctx) resolve(err error) {
 
 // fireTimeout runs when MaxResponseTime is up.
 func (ctx *Ctx) fireTimeout() {
+	defer verifTick(verifTickCliTimeout)
+
 	// resolve rather than a bare send: the stream may have been answered
 	// already, in which case the buffer is full and a send would block this
 	// timer goroutine forever.
